@@ -3,7 +3,7 @@
 (suite passes with it, demo fails with it, demo passes without it), copy it to seeded/<name>/ and run the checks."""
 import json, os, shutil, subprocess, sys
 ROOT = os.path.dirname(os.path.dirname(os.path.abspath(__file__)))
-WT = '/tmp/confirm-wt'
+WT = os.environ.get('SEED_CONFIRM_WT', '/tmp/confirm-wt')
 ENV = dict(os.environ, CARGO_NET_OFFLINE='true')
 
 
@@ -28,6 +28,17 @@ def main():
     rc, o = sh('cargo test --workspace --no-fail-fast --offline 2>&1 | grep "^test result" | head -3', cwd=WT)
     conf['suite_with_patch'] = o.strip()
     suite_ok = 'test result: ok. 73 passed' in o
+    if meta.get('harmless'):
+        sh('git checkout -q -- .', cwd=WT)
+        print(name, 'CONFIRMED (harmless refactor: suite passes)' if suite_ok else 'NOT CONFIRMED', conf['suite_with_patch'][:200])
+        if not suite_ok:
+            return
+        dst = os.path.join(ROOT, 'seeded', name)
+        os.makedirs(dst, exist_ok=True)
+        shutil.copy(os.path.join(src, 'patch.diff'), os.path.join(dst, 'patch.diff'))
+        meta['confirmed'] = conf
+        json.dump(meta, open(os.path.join(dst, 'meta.json'), 'w'), indent=1)
+        return
     os.makedirs(os.path.join(WT, 'tests'), exist_ok=True)
     shutil.copy(os.path.join(src, 'demo.rs'), os.path.join(WT, 'tests', 'demo_x.rs'))
     rc1, o1 = sh('cargo test --offline --test demo_x 2>&1 | tail -5', cwd=WT)
